@@ -278,6 +278,11 @@ type Durable struct {
 	Entries   map[uint64]map[uint64]bool // index -> set of terms ever durably saved
 	LastIndex uint64            // highest index ever durably saved
 	SnapIndex uint64            // highest snapshot index ever durably recorded
+	// SnapAttempt: highest snapshot index ever HANDED to the log store (recorded before
+	// the save starts, whether or not it became durable): an upper bound of what can be
+	// durable, used where a lower bound would raise false alarms (a save in flight
+	// when the power goes may or may not be durable)
+	SnapAttempt uint64
 	Saves     int
 }
 
@@ -411,7 +416,20 @@ func hasContent(uds []pb.Update) bool {
 	return false
 }
 
+func (m *MonLog) noteSnapshotAttempt(uds []pb.Update) {
+	m.mu.Lock()
+	defer m.mu.Unlock()
+	for _, ud := range uds {
+		if !pb.IsEmptySnapshot(ud.Snapshot) {
+			if d := m.node(nodeKey{ud.ShardID, ud.ReplicaID}); ud.Snapshot.Index > d.SnapAttempt {
+				d.SnapAttempt = ud.Snapshot.Index
+			}
+		}
+	}
+}
+
 func (d *monDB) SaveRaftState(uds []pb.Update, shardID uint64) error {
+	d.mon.noteSnapshotAttempt(uds)
 	content := hasContent(uds)
 	if content {
 		atomic.AddInt64(&d.mon.saveCalls, 1)
@@ -439,11 +457,11 @@ func (d *monDB) SaveRaftState(uds []pb.Update, shardID uint64) error {
 func (d *monDB) RemoveEntriesTo(shardID uint64, replicaID uint64, index uint64) error {
 	if atomic.LoadInt32(&d.mon.frozen) == 0 {
 		d.mon.mu.Lock()
-		snap := d.mon.node(nodeKey{shardID, replicaID}).SnapIndex
+		snap := d.mon.node(nodeKey{shardID, replicaID}).SnapAttempt
 		d.mon.mu.Unlock()
 		if index > snap {
 			if f := d.mon.OnViolation; f != nil {
-				f("log-compacted-beyond-durable-snapshot", "replica %d/%d on %s removes log entries up to %d, the newest snapshot durably recorded in its log store is %d",
+				f("log-compacted-beyond-durable-snapshot", "replica %d/%d on %s removes log entries up to %d, the newest snapshot ever handed to its log store is %d",
 					shardID, replicaID, d.mon.host, index, snap)
 			}
 		}
@@ -455,6 +473,7 @@ func (d *monDB) SaveSnapshots(uds []pb.Update) error {
 	if f := d.mon.OnSaveSnapshots; f != nil {
 		f(d.mon.host, true)
 	}
+	d.mon.noteSnapshotAttempt(uds)
 	err := d.ILogDB.SaveSnapshots(uds)
 	if err == nil {
 		d.mon.record(uds)
